@@ -72,6 +72,23 @@ PROPS = {
         assumptions=["Schnorr soundness and keccak collision resistance assumed", "member ids >= 2^63 are unreachable on chain (ids are 1..size) and only counted"],
         nt_floor=0.2,
     ),
+    "C04": dict(
+        stages=[dict(test="TestC04", pkg="c04", quick=(16, 14), thorough=(16, 1000), timeout=dict(quick=900, thorough=3400))],
+        rule="case = group size 2-6 (thorough occasionally 7-12), threshold 1..n, polynomial kinds (library-random, deterministic, small, near-N, shared), "
+             "CreationPeriod 4-12, a schedule (permutation of submissions per round + block boundaries) and per-member deviations: round 1 (bad A0 / one-time "
+             "proof, short/long commitments, replay, wrong member id, mismatch, negated commitments, stop), round 2 (flipped / other scalar / +n / wrong nonce / "
+             "wrong key / swapped / short / long shares, stop), round 3 (false, mixed, bad key-sym, bad signature, non-member, self, impersonated complaints, bad "
+             "confirm, stop), duplicates, out-of-round and non-member messages; non-trivial = >=1 deviation applied AND rounds 1,2,3 all reached; "
+             "distinct = hash of case JSON",
+        explanation="honest members are driven by the daemon's own round-3 code (cylinder hook) on the group state read through the chain's querier; the harness "
+                    "knows every polynomial and decides share consistency with math/big: ACTIVE => group key == sum of constant-term commitments == (sum a_j0)G, "
+                    "member keys == (sum_j f_j(i))G, threshold subsets interpolate to the secret and (t-1)-subsets do not, a full signing verifies under the "
+                    "independent verifier; an inconsistent share to an honest recipient => successful complaint, dealer malicious, group never ACTIVE; false "
+                    "complaint marks only the complainant; a protocol-following member is NEVER malicious; duplicates/out-of-round/non-member messages rejected",
+        assumptions=["a recipient colluding with a bad dealer is outside 'follows the protocol'", "library nonces come from crypto/rand; verdicts do not depend on them",
+                     "commitments of index >=1 carry no proof of possession: accumulated commitments can be driven to infinity, the group then expires with nobody blamed (counted as acc-broken, not a C04 violation)"],
+        nt_floor=0.2,
+    ),
     "C05": dict(
         stages=[dict(test="TestC05", quick=(16, 30), thorough=(16, 2000), timeout=dict(quick=900, thorough=3300))],
         rule="case = group (n 2-6, threshold, MaxDESize 3-8, SigningPeriod 1-4, MaxSigningAttempt 1-4, fee) + 10-60 late-bound ops "
